@@ -5,12 +5,14 @@ import DelbModel.Model.Tree
 * the **store** is lxml's `_Attrib`: an insertion-ordered mapping from Clark keys (`{ns}name` or `name`)
   to values; assigning an existing key keeps its position
 * the element has a namespace `N` and an in-scope default namespace `D` (`nsmap.get(None)`, `""` if none)
-* `TagAttributes._attributes` **caches** one `Attribute` view per *qualified name as it was given*
-* a **view** knows its qualified name, whether it is still attached and, once detached, its last value
+* `TagAttributes._attributes` **caches** one `Attribute` object (a *view*) per **key of the store**
+  (`_etree_key(qualified_name)`), so every spelling of one attribute shares one object
+* a **view** knows its qualified name, whether it is still attached and, once detached, its last value;
+  a view created by the mapping carries the name that iteration reports (`__reported_name`)
 
-`resolve`, `etreeKey` and the operations follow the methods of the same name.  The specification is a
-dictionary keyed by *canonical* names: by lxml's documented limitation `("", n)` and `(D, n)` are the
-same attribute.
+`resolve`, `etreeKey`, `reportedName` and the operations follow the methods of the same name.  The
+specification is a dictionary keyed by *canonical* names: by lxml's documented limitation `("", n)` and
+`(D, n)` are the same attribute.
 -/
 namespace Delb.Attrs
 
@@ -41,6 +43,9 @@ abbrev Key := Option String × String
 def etreeKey (c : Ctx) (q : QName) : Key :=
   if q.1 != "" && c.defaultNs != q.1 then (some q.1, q.2) else (none, q.2)
 
+/-- `__reported_name`: `namespace or nsmap.get(None, "")` -/
+def reportedName (c : Ctx) (q : QName) : QName := (if q.1 == "" then c.defaultNs else q.1, q.2)
+
 abbrev Store := List (Key × Str)
 
 def sget (s : Store) (k : Key) : Option Str :=
@@ -57,29 +62,31 @@ def sdel (s : Store) (k : Key) : Store := s.filter (fun e => e.1 != k)
 
 structure View where
   id : Nat
-  attached : Bool
-  qname : QName
-  detachedValue : Option Str
+  attached : Bool                 -- `_attributes is not None`
+  qname : QName                   -- `_qualified_name`
+  detachedValue : Option Str      -- `_detached_value`
 deriving Repr
+
+abbrev Cache := List (Key × Nat)  -- store key ↦ view id  (`TagAttributes._attributes`)
 
 structure State where
   store : Store
-  cache : List (QName × Nat)        -- qualified name ↦ view id
+  cache : Cache
   views : List View
   nextView : Nat
 deriving Repr
 
-def cacheGet (c : List (QName × Nat)) (q : QName) : Option Nat :=
+def cacheGet (c : Cache) (k : Key) : Option Nat :=
   match c with
   | [] => none
-  | (q', v) :: rest => if q' == q then some v else cacheGet rest q
+  | (k', v) :: rest => if k' == k then some v else cacheGet rest k
 
-def cacheSet (c : List (QName × Nat)) (q : QName) (v : Nat) : List (QName × Nat) :=
+def cacheSet (c : Cache) (k : Key) (v : Nat) : Cache :=
   match c with
-  | [] => [(q, v)]
-  | (q', v') :: rest => if q' == q then (q, v) :: rest else (q', v') :: cacheSet rest q v
+  | [] => [(k, v)]
+  | (k', v') :: rest => if k' == k then (k, v) :: rest else (k', v') :: cacheSet rest k v
 
-def cacheDel (c : List (QName × Nat)) (q : QName) : List (QName × Nat) := c.filter (fun e => e.1 != q)
+def cacheDel (c : Cache) (k : Key) : Cache := c.filter (fun e => e.1 != k)
 
 def getView (s : State) (id : Nat) : Option View := s.views.find? (fun v => v.id == id)
 def putView (s : State) (v : View) : State :=
@@ -99,38 +106,32 @@ deriving Repr, DecidableEq
 /-- `item in attributes` -/
 def contains (c : Ctx) (s : State) (a : Accessor) : Bool := (sget s.store (etreeKey c (resolve c a))).isSome
 
-/-- `attributes[item]`: the cached view of that qualified name, or a new one -/
+/-- `attributes[item]`: the cached view of the store key, or a new one that carries the reported name -/
 def getItem (c : Ctx) (s : State) (a : Accessor) : State × Res :=
   if !contains c s a then (s, .keyError)
   else
     let q := resolve c a
-    match cacheGet s.cache q with
+    let k := etreeKey c q
+    match cacheGet s.cache k with
     | some v => (s, .view v)
     | none =>
-      let v : View := { id := s.nextView, attached := true, qname := q, detachedValue := Option.none }
-      ({ s with cache := cacheSet s.cache q v.id, views := s.views ++ [v], nextView := s.nextView + 1 }, .view v.id)
+      let v : View := { id := s.nextView, attached := true, qname := reportedName c q, detachedValue := Option.none }
+      ({ s with cache := cacheSet s.cache k v.id, views := s.views ++ [v], nextView := s.nextView + 1 }, .view v.id)
 
-/-- `attributes[item] = value`: stores the value and caches a *new* view for the qualified name -/
+/-- `attributes[item] = value`: stores the value; an already cached view is kept, otherwise one is created -/
 def setItem (c : Ctx) (s : State) (a : Accessor) (value : Str) : State :=
   let q := resolve c a
-  let v : View := { id := s.nextView, attached := true, qname := q, detachedValue := Option.none }
-  { store := sset s.store (etreeKey c q) value, cache := cacheSet s.cache q v.id, views := s.views ++ [v],
-    nextView := s.nextView + 1 }
+  let k := etreeKey c q
+  let store := sset s.store k value
+  match cacheGet s.cache k with
+  | some _ => { s with store := store }
+  | none =>
+    let v : View := { id := s.nextView, attached := true, qname := reportedName c q, detachedValue := Option.none }
+    { store := store, cache := cacheSet s.cache k v.id, views := s.views ++ [v], nextView := s.nextView + 1 }
 
-/-- `del attributes[item]`: detaches the cached view of that qualified name (only that one) -/
-def delItem (c : Ctx) (s : State) (a : Accessor) : State × Res :=
-  if !contains c s a then (s, .keyError)
-  else
-    let q := resolve c a
-    let (s1, r) := getItem c s a
-    match r with
-    | .view vid =>
-      let value := (sget s1.store (etreeKey c q)).getD []
-      let s2 := match getView s1 vid with
-        | some v => putView s1 { v with attached := false, detachedValue := some value }
-        | Option.none => s1
-      ({ s2 with store := sdel s2.store (etreeKey c q), cache := cacheDel s2.cache q }, .unit)
-    | _ => (s1, .keyError)
+/-- `attributes.update(mapping)`: one assignment per item -/
+def update (c : Ctx) (s : State) (items : List (Accessor × Str)) : State :=
+  items.foldl (fun s e => setItem c s e.1 e.2) s
 
 /-- `Attribute.value` -/
 def viewValue (c : Ctx) (s : State) (vid : Nat) : Res :=
@@ -140,10 +141,35 @@ def viewValue (c : Ctx) (s : State) (vid : Nat) : Res :=
     if v.attached then
       match sget s.store (etreeKey c v.qname) with
       | some x => .value x
-      | Option.none => .keyError            -- a view that was not told about the removal
+      | Option.none => .keyError            -- does not happen in reachable states (`c11_view_value`)
     else match v.detachedValue with
       | some x => .value x
       | Option.none => .keyError
+
+/-- `attribute._detached_value = attribute.value; attribute._attributes = None`; nothing if reading the value fails -/
+def detachView (c : Ctx) (s : State) (vid : Nat) : Option State :=
+  match getView s vid with
+  | Option.none => Option.none
+  | some v =>
+    match viewValue c s vid with
+    | .value x => some (putView s { v with attached := false, detachedValue := some x })
+    | _ => Option.none
+
+/-- `del attributes[item]`: the view of the store key (`self[qualified_name]`, created when none is cached)
+    is detached with its value, the entry leaves store and cache -/
+def delItem (c : Ctx) (s : State) (a : Accessor) : State × Res :=
+  if !contains c s a then (s, .keyError)
+  else
+    let q := resolve c a
+    let (s1, r) := getItem c s (.pair q.1 q.2)
+    match r with
+    | .view vid =>
+      match detachView c s1 vid with
+      | some s2 =>
+        let k := etreeKey c q
+        ({ s2 with store := sdel s2.store k, cache := cacheDel s2.cache k }, .unit)
+      | Option.none => (s1, .keyError)
+    | _ => (s1, .keyError)
 
 /-- `Attribute.value = x` -/
 def viewSetValue (c : Ctx) (s : State) (vid : Nat) (x : Str) : State :=
@@ -153,16 +179,118 @@ def viewSetValue (c : Ctx) (s : State) (vid : Nat) (x : Str) : State :=
     if v.attached then { s with store := sset s.store (etreeKey c v.qname) x }
     else putView s { v with detachedValue := some x }
 
-/-- `__iter__`: plain keys are reported in the default namespace in scope -/
-def iter (c : Ctx) (s : State) : List QName :=
-  s.store.map (fun e => match e.1 with
-    | (some ns, n) => (ns, n)
-    | (Option.none, n) => (c.defaultNs, n))
+/-- `Attribute._set_new_key(namespace, name)` (the setters of `namespace` and `local_name`).
+    `.keyError` stands for the exceptions of the method (AssertionError on a detached object, KeyError). -/
+def renameView (c : Ctx) (s : State) (vid : Nat) (nq : QName) : State × Res :=
+  match getView s vid with
+  | Option.none => (s, .keyError)
+  | some v =>
+    if v.qname == nq then (s, .unit)
+    else if !v.attached then (s, .keyError)                     -- `assert attributes is not None`
+    else
+      let newKey := etreeKey c nq
+      if newKey == etreeKey c v.qname then (s, .unit)           -- another spelling of the same name
+      else
+        -- an attribute with the new name is superseded: its cached object is detached with its value
+        let s0? := match cacheGet s.cache newKey with
+          | some rid => detachView c s rid
+          | Option.none => some s
+        match s0? with
+        | Option.none => (s, .keyError)
+        | some s0 =>
+          match viewValue c s0 vid with
+          | .value x =>
+            -- `attributes[(namespace, name)] = self.value`
+            let s1 := setItem c s0 (.pair nq.1 nq.2) x
+            -- `self._qualified_name = (namespace, name)`
+            let s2 := match getView s1 vid with
+              | some v1 => putView s1 { v1 with qname := nq }
+              | Option.none => s1
+            -- `del attributes[current]`
+            let (s3, r) := delItem c s2 (.pair v.qname.1 v.qname.2)
+            match r with
+            | .keyError => (s3, .keyError)
+            | _ =>
+              -- `self._attributes = attributes`
+              let s4 := match getView s3 vid with
+                | some v3 => putView s3 { v3 with attached := true }
+                | Option.none => s3
+              -- `attributes._attributes[new_key] = self`
+              let s5 := { s4 with cache := cacheSet s4.cache newKey vid }
+              -- the object `__setitem__` created when none was cached for the new key was never handed out
+              -- and is referenced by nothing any more
+              match cacheGet s0.cache newKey with
+              | some _ => (s5, .unit)
+              | Option.none => ({ s5 with views := s5.views.filter (fun w => w.id != s0.nextView) }, .unit)
+          | _ => (s0, .keyError)
+
+/-! the mixin methods of `collections.abc.MutableMapping` are compositions of the above -/
+
+/-- `attributes.pop(item)` (no default): `value = self[key]`, `del self[key]`, `return value` -/
+def pop (c : Ctx) (s : State) (a : Accessor) : State × Res :=
+  let (s1, r) := getItem c s a
+  match r with
+  | .view vid => ((delItem c s1 a).1, .view vid)
+  | r => (s1, r)
+
+/-- `attributes.setdefault(item, default)`: the attribute object if present, else assigns and returns `default` -/
+def setDefault (c : Ctx) (s : State) (a : Accessor) (d : Str) : State × Res :=
+  match getItem c s a with
+  | (s1, .view vid) => (s1, .view vid)
+  | _ => (setItem c s a d, .value d)
+
+/-- the name iteration reports for a store key: plain keys are reported in the default namespace in scope -/
+def iterName (c : Ctx) (k : Key) : QName :=
+  match k with
+  | (some ns, n) => (ns, n)
+  | (Option.none, n) => (c.defaultNs, n)
+
+/-- `__iter__` -/
+def iter (c : Ctx) (s : State) : List QName := s.store.map (fun e => iterName c e.1)
 
 def len (s : State) : Nat := s.store.length
 
+/-- `attributes.popitem()`: pops the first name of the iteration (`KeyError` when empty) -/
+def popItem (c : Ctx) (s : State) : State × Option QName × Res :=
+  match iter c s with
+  | [] => (s, Option.none, .keyError)
+  | key :: _ =>
+    let (s1, r) := pop c s (.pair key.1 key.2)
+    (s1, some key, r)
+
+def clearLoop (c : Ctx) : Nat → State → State
+  | 0, s => s
+  | n + 1, s =>
+    match popItem c s with
+    | (s1, some _, .view _) => clearLoop c n s1
+    | _ => s
+
+/-- `attributes.clear()`: `popitem()` until it raises `KeyError` -/
+def clear (c : Ctx) (s : State) : State := clearLoop c (len s) s
+
 /-- `attributes.get(item)` returning the value (or nothing) -/
 def getValue (c : Ctx) (s : State) (a : Accessor) : Option Str := sget s.store (etreeKey c (resolve c a))
+
+/-- `attribute != other[key]` is false: both lookups succeed and give the same value -/
+def sameValue : Option Str → Option Str → Bool
+  | some x, some y => x == y
+  | _, _ => false
+
+/-- `attributes == other` for another `TagAttributes` (possibly of an element with other namespaces in
+    scope): same length, every reported name of `self` is a reported name of `other`, values equal.
+    (The `Attribute` objects that `items()` and `other[key]` create are only cached, never handed out; the model
+    leaves them out.) -/
+def eqCollections (c₁ : Ctx) (s₁ : State) (c₂ : Ctx) (s₂ : State) : Bool :=
+  len s₁ == len s₂ &&
+  (iter c₁ s₁).all (fun key =>
+    (iter c₂ s₂).contains key &&
+    sameValue (getValue c₁ s₁ (.pair key.1 key.2)) (getValue c₂ s₂ (.pair key.1 key.2)))
+
+/-- `attributes == other` for a plain mapping `other` (keys: any accessor form): same length, every key of
+    `other` is `in self` and `self[key] == value` -/
+def eqMapping (c : Ctx) (s : State) (other : List (Accessor × Str)) : Bool :=
+  len s == other.length &&
+  other.all (fun e => contains c s e.1 && getValue c s e.1 == some e.2)
 
 /-! ## specification: a dictionary keyed by canonical names -/
 
@@ -189,9 +317,44 @@ def absStore (s : Store) : Dict :=
     | (some ns, n) => ((ns, n), e.2)
     | (Option.none, n) => (("", n), e.2))
 
+/-- the dictionary of reported names (what `dict(attributes)` shows, values as strings): the canonical
+    dictionary with `""` replaced by the default namespace in scope -/
+def reportedDict (c : Ctx) (s : Store) : Dict := s.map (fun e => (iterName c e.1, e.2))
+
+/-- two dictionaries have the same entries -/
+def dictEquiv (d₁ d₂ : Dict) : Prop := ∀ e, e ∈ d₁ ↔ e ∈ d₂
+
 /-- keys of a store are in the form `etreeKey` produces for the current scope: no Clark key carries the
-    default namespace or an empty namespace -/
+    default namespace or an empty namespace.  Preserved by every operation; true of every element built through
+    delb and of parsed elements unless an attribute is written with a prefix bound to the URI that is also the
+    default namespace in scope (recorded finding `prefixed-attribute-in-default-namespace`: there the library
+    itself cannot reach the entry) -/
 def storeOk (c : Ctx) (s : Store) : Prop :=
   (∀ e ∈ s, ∀ ns, e.1.1 = some ns → ns ≠ "" ∧ ns ≠ c.defaultNs) ∧ (s.map (·.1)).Nodup
+
+/-- the invariant of reachable states: the cached view of a store key is an attached view of that key,
+    every attached view is the cached view of its key, cached keys are in the store, view ids are unique and
+    below `nextView`, a detached view has a value -/
+structure ViewsOk (c : Ctx) (s : State) : Prop where
+  fresh : ∀ v ∈ s.views, v.id < s.nextView
+  unique : (s.views.map (·.id)).Nodup
+  cached : ∀ k id, cacheGet s.cache k = some id →
+    ∃ v, getView s id = some v ∧ v.attached = true ∧ etreeKey c v.qname = k
+  attached : ∀ id v, getView s id = some v → v.attached = true → cacheGet s.cache (etreeKey c v.qname) = some id
+  stored : ∀ k id, cacheGet s.cache k = some id → (sget s.store k).isSome = true
+  detached : ∀ id v, getView s id = some v → v.attached = false → v.detachedValue.isSome = true
+
+/-- `storeOk` and `ViewsOk` together -/
+def Inv (c : Ctx) (s : State) : Prop := storeOk c s.store ∧ ViewsOk c s
+
+/-- the states a client can reach: a wrapped element without attribute objects, then any sequence of the
+    operations (`update`, `pop`, `popitem`, `clear`, `setdefault` are compositions of these) -/
+inductive Reachable (c : Ctx) : State → Prop
+  | init (st : Store) (n : Nat) : storeOk c st → Reachable c ⟨st, [], [], n⟩
+  | getItem {s : State} (a : Accessor) : Reachable c s → Reachable c (getItem c s a).1
+  | setItem {s : State} (a : Accessor) (x : Str) : Reachable c s → Reachable c (setItem c s a x)
+  | delItem {s : State} (a : Accessor) : Reachable c s → Reachable c (delItem c s a).1
+  | viewSetValue {s : State} (vid : Nat) (x : Str) : Reachable c s → Reachable c (viewSetValue c s vid x)
+  | renameView {s : State} (vid : Nat) (nq : QName) : Reachable c s → Reachable c (renameView c s vid nq).1
 
 end Delb.Attrs
